@@ -120,6 +120,12 @@ def train_run(args):
         kw["stop_condition"] = ml.TrainLoss(patience=spec["patience"], min_delta=spec["mindelta"])
     else:
         kw["stop_condition"] = ml.ValLoss(patience=spec["patience"], min_delta=spec["mindelta"])
+    # the devices are always named explicitly (ml.train defaults to ALL devices, and the workers may see several forced
+    # host-platform devices, core.host_devices); ndev > 1 is a real pmap
+    import jax
+    if len(jax.devices()) < spec.get("ndev", 1):
+        raise RuntimeError("train_run: %d devices requested, %d present" % (spec["ndev"], len(jax.devices())))
+    kw["devices"] = jax.devices()[: spec.get("ndev", 1)]
     rec = trainrec.Recorder(max_epochs=n_ep)
     try:
         rec.run(kw)
@@ -229,7 +235,11 @@ def main(tier):
     # ---- B: real training runs, trace-validated -----------------------------------------------------
     rng = random.Random(core.SEED + 19)
     specs = make_train_specs(rng, by_cfg, 8 if tier == "quick" else 48)
-    traces = core.pmap(train_run, [(i + 1, s, core.SEED + i) for i, s in enumerate(specs)], procs=8)
+    for s in specs:                                    # every run whose batch size allows it: on two devices for every other one
+        if s["B"] % 2 == 0 and specs.index(s) % 2 == 0:
+            s["ndev"] = 2
+    with core.host_devices(4):
+        traces = core.pmap(train_run, [(i + 1, s, core.SEED + i) for i, s in enumerate(specs)], procs=8)
     for t in traces:
         if t["errors"]:
             raise RuntimeError("harness error in scripted run: %s" % t["errors"][:2])
@@ -257,7 +267,8 @@ def replay(path):
     core._pool_init()
     key = pl["key"]
     if "trace" in pl:
-        t = train_run((1, pl["trace"]["spec"], core.SEED))
+        with core.host_devices(4):
+            t = core.pmap(train_run, [(1, pl["trace"]["spec"], core.SEED)], procs=1, crash_value=None)[0]
         chk = core.Check("C19", "quick")
         v = tracelib.validate(chk, "trace/Trace_TrainLoop.tla", [{"tid": 1, "cfg": t["cfg"], "events": t["events"]}])[1]
         if v[0] == "REJECT":
